@@ -328,13 +328,14 @@ func hdr(id, addr int) raft.RPCHeader {
 // damageOK: damaging the newest readable snapshot is a fault the server can recover from only if the
 // log still reaches down to the snapshot it falls back to (TrailingLogs kept them)
 func (w *world) damageOK() bool {
-	fb, readable := w.snaps.damageNewest(true)
+	fb, readable, newest := w.snaps.damageNewest3(true)
 	if readable == 0 {
 		return false
 	}
 	lo, _ := w.st.InmemStore.FirstIndex()
 	hi, _ := w.st.InmemStore.LastIndex()
-	if hi == 0 || lo > fb+1 {
+	// ... and up to the end of the snapshot that is lost (what only that snapshot held would be gone)
+	if hi == 0 || lo > fb+1 || hi < newest {
 		return false
 	}
 	for i := lo; i <= hi; i++ {
